@@ -3,7 +3,7 @@
    region_decodes), loading over any list of blocks (load_signal_blocks) and the rendering of every
    stored entry (entry_render, observe_entries), and the end-to-end theorem storage_transparent_partial with
    its corollary storage_independent_of_segmentation.
-   What the end-to-end theorem does NOT cover (hence `_partial`): 1-bit signals, reals, strings, the GHW
+   What the end-to-end theorem does NOT cover (hence `_partial`): reals, strings, the GHW
    raw-value path (add_n_bit_change) and Encoder::append (blocks produced by several parser threads); for
    those the tie is the correspondence check (MANIFEST level_note). *)
 From WV Require Import Model.Base Model.Bits Model.Leb128 Model.WaveMem Proofs.BitsProofs Proofs.LebProofs Proofs.WaveMemProofs Proofs.StoreProofs Proofs.EncoderProofs.
@@ -40,15 +40,15 @@ Check metadata_roundtrip_compressed :
 Check load_fixed_stream :
   forall mx bits es fuel t acc canon,
   Forall (wf_sentry mx bits) es -> acc_rep (bpe_of mx bits) acc canon -> (length es < fuel)%nat ->
-  exists acc', load_fixed fuel (enc_stream es) t bits mx acc = Ok acc' /\
+  exists acc', load_fixed fuel (enc_stream bits es) t bits mx acc = Ok acc' /\
                acc_rep (bpe_of mx bits) acc' (load_spec mx bits es t canon) /\
                la_strings acc' = la_strings acc.
 
 (* get_value_at on any entry of a loaded signal: the kind it was recorded with and exactly its symbols,
-   for every widest kind of the signal, every width >= 2 and whatever surrounds the entry *)
+   for every widest kind of the signal, every width >= 1 and whatever surrounds the entry *)
 Check entry_render :
   forall mx bits local syms pre post (k : nat),
-  (2 <= bits)%nat -> length syms = bits -> small_syms local syms -> states_num local <= states_num mx ->
+  (1 <= bits)%nat -> length syms = bits -> small_syms local syms -> states_num local <= states_num mx ->
   length pre = (k * bpe_of mx bits)%nat ->
   get_value_at (SigBits mx bits (snd (get_len_and_meta mx bits)) (bpe_of mx bits)
                         (pre ++ wide mx bits local (write_n_state_loop local syms 0 None) ++ post)) k
@@ -60,7 +60,7 @@ Check entry_render :
 Check load_signal_blocks :
   forall (lz_compress : list byte -> list byte) (lz_decompress : list byte -> nat -> option (list byte)),
   (forall d n, (length d <= n)%nat -> lz_decompress (lz_compress d) n = Some d) ->
-  forall id bits (bl : list blk), (2 <= bits)%nat -> Forall (blk_ok id bits) bl ->
+  forall id bits (bl : list blk), (1 <= bits)%nat -> Forall (blk_ok id bits) bl ->
   exists mx,
     Forall (fun x : blk => let '(_, _, _, se, es) := x in es <> [] -> states_num (se_max se) <= states_num mx) bl /\
     load_signal lz_decompress (map (blk_block lz_compress) bl) id (EncBits bits)
@@ -70,13 +70,13 @@ Check load_signal_blocks :
 
 (* iter_changes over a signal holding the widened entries of `abs`: time index, kind and characters of each *)
 Check observe_entries :
-  forall mx bits (abs : list aentry), (2 <= bits)%nat -> Forall (aentry_ok mx bits) abs ->
+  forall mx bits (abs : list aentry), (1 <= bits)%nat -> Forall (aentry_ok mx bits) abs ->
   observe_signal (mk_signal (map fst (map (wide_of mx bits) abs))
                             (SigBits mx bits (snd (get_len_and_meta mx bits)) (bpe_of mx bits)
                                      (concat (map snd (map (wide_of mx bits) abs)))))
   = outcome_map render_of abs.
 
-(* END-TO-END (vectors of width >= 2 written through the VCD value path): for every operation history over any
+(* END-TO-END (vectors of any width written through the VCD value path): for every operation history over any
    number of signals, every block capacity 1..65536 (every segmentation; the code's 65535 is one instance),
    every compressor satisfying the round-trip law: the loaded signal reports exactly the recorded changes
    (Spec/StoreSpec.v `recorded`): index into the accepted time table, least kind holding the value, its
@@ -87,7 +87,7 @@ Check storage_transparent_partial :
   forall (parse_f64 : list byte -> option (list byte)) (lz_compress : list byte -> list byte)
          (lz_decompress : list byte -> nat -> option (list byte)),
   (forall d n, (length d <= n)%nat -> lz_decompress (lz_compress d) n = Some d) ->
-  forall cap, 1 <= cap -> cap <= 65536 -> forall id bits, (2 <= bits)%nat ->
+  forall cap, 1 <= cap -> cap <= 65536 -> forall id bits, (1 <= bits)%nat ->
   forall tpes ops e blocks ttb,
   nth_error tpes id = Some (EncBits bits) ->
   Forall (op_ok id) ops ->
@@ -105,7 +105,7 @@ Check storage_independent_of_segmentation :
   forall parse1 parse2 lzc1 lzd1 lzc2 lzd2 cap1 cap2 id bits tpes ops e1 e2 b1 t1 b2 t2,
   (forall d n, (length d <= n)%nat -> lzd1 (lzc1 d) n = Some d) ->
   (forall d n, (length d <= n)%nat -> lzd2 (lzc2 d) n = Some d) ->
-  1 <= cap1 <= 65536 -> 1 <= cap2 <= 65536 -> (2 <= bits)%nat ->
+  1 <= cap1 <= 65536 -> 1 <= cap2 <= 65536 -> (1 <= bits)%nat ->
   nth_error tpes id = Some (EncBits bits) -> Forall (op_ok id) ops ->
   N.of_nat (count_vcd id ops) * (10 + N.of_nat bits) < 4294967264 ->
   run_ops parse1 lzc1 cap1 (enc_new tpes) ops = Ok e1 -> enc_finish lzc1 e1 = Ok (b1, t1) ->
@@ -120,7 +120,7 @@ Check appended_transparent :
   forall (parse_f64 : list byte -> option (list byte)) (lz_compress : list byte -> list byte)
          (lz_decompress : list byte -> nat -> option (list byte)),
   (forall d n, (length d <= n)%nat -> lz_decompress (lz_compress d) n = Some d) ->
-  forall cap, 1 <= cap -> cap <= 65536 -> forall id bits, (2 <= bits)%nat ->
+  forall cap, 1 <= cap -> cap <= 65536 -> forall id bits, (1 <= bits)%nat ->
   forall tpes (opss : list (list enc_op)) (encs : list encoder) first others e blocks ttb,
   nth_error tpes id = Some (EncBits bits) ->
   Forall2 (fun ops en => run_ops parse_f64 lz_compress cap (enc_new tpes) ops = Ok en) opss encs ->
